@@ -976,8 +976,9 @@ def line_box_verticality(box):
 def translate_subtree(box, dy):
     if isinstance(box, boxes.InlineBox):
         box.position_y += dy
-        if box.style['vertical_align'] in ('top', 'bottom'):
-            for child in box.children:
+        for child in box.children:
+            # Nested top and bottom subtrees are aligned on their own
+            if child.style['vertical_align'] not in ('top', 'bottom'):
                 translate_subtree(child, dy)
     else:
         # Text or atomic boxes
